@@ -485,6 +485,10 @@ pub fn run(rep: &mut StageReport, tier: &str, seed: u64) {
             for (sig, detail) in f {
                 v.push(V(sig, detail));
             }
+            let (_n, f) = tokio::time::timeout(Duration::from_secs(120), super::wirepeers::c01_pipelined_and_half_closed(server.addr, &certs, 200 + r as u64)).await.map_err(|_| "watchdog: half-closed subscriber scenario did not finish in 120 s".to_string())??;
+            for (sig, detail) in f {
+                v.push(V(format!("accepted-then-abandoned/{}", sig), detail));
+            }
             let (n, f) = tokio::time::timeout(Duration::from_secs(120), super::wirepeers::c11_unicode_names(server.addr, &certs)).await.map_err(|_| "watchdog: non-ASCII name registrations did not finish in 120 s".to_string())??;
             unicode_regs += n;
             for (sig, detail) in f {
